@@ -61,6 +61,16 @@ GROUPS = {
     # the same references for classes that define __new__ (instances obtained by calling the class)
     "newattrs": dict(Kinds={"class", "function"}, Ops={"bind", "use", "instattr", "helperattr"}, ScopeNames=set(),
                      Roles={"new"}, replay_all=True, quick=({"a"}, 3, 3), thorough=({"a"}, 4, 3)),
+    # a def called twice with keywords, with an attribute of the parameter's spelling read from the
+    # first call's result in between
+    "recall": dict(Kinds={"function"}, Ops={"param", "use", "kwcall", "kwrecall", "resattr"}, ScopeNames=set(),
+                   replay_all=True, quick=({"a"}, 2, 4), thorough=({"a", "b"}, 2, 5)),
+    # two modules star-imported into the first one; both may define the same name (the later wins)
+    "stars": dict(Kinds={"function"}, Ops={"bind", "use", "libdef", "libuse", "sibdef", "sibuse"}, ScopeNames=set(),
+                  Libs={"stars"}, replay_all=True, quick=({"a"}, 2, 4), thorough=({"a", "b"}, 2, 4)),
+    # lib reached only as a module object re-exported by `from st import *` (st imports lib)
+    "starmod": dict(Kinds={"function"}, Ops={"bind", "use", "libdef", "libuse", "modattr"}, ScopeNames=set(),
+                    Libs={"starmod"}, replay_all=True, quick=({"a"}, 2, 3), thorough=({"a", "b"}, 2, 4)),
     "core2": dict(Kinds={"function", "class"}, Ops=CORE, ScopeNames=set(),
                   quick=({"a", "b"}, 2, 4), thorough=({"a", "b"}, 3, 4)),
     "defnames": dict(Kinds={"function", "class"}, Ops={"bind", "use", "global", "nonlocal", "param"},
@@ -71,7 +81,7 @@ GROUPS = {
                  ScopeNames=set(), quick=({"a"}, 3, 3), thorough=({"a"}, 4, 3)),
     "calls": dict(Kinds={"function", "class"}, Ops={"bind", "use", "param", "kwcall", "defuse"},
                   ScopeNames={"a"}, quick=({"a", "b"}, 3, 2), thorough=({"a", "b"}, 3, 3)),
-    "decoys": dict(Kinds={"function"}, Ops={"bind", "use", "param", "fuse", "cmtdecoy", "strdecoy"},
+    "decoys": dict(Kinds={"function"}, Ops={"bind", "use", "param", "fuse", "cmtdecoy", "strdecoy", "cmtdedent"},
                    ScopeNames=set(), quick=({"a"}, 2, 4), thorough=({"a"}, 3, 4)),
     # multi-module part: a second module, the import forms, rename of its names / of the module
     "modules": dict(Kinds={"function"}, Ops={"bind", "use", "libdef", "libuse", "fromlib", "fromlibas", "modattr", "asattr",
@@ -185,7 +195,8 @@ class Program:
         self.names = sorted({e["n"] for e in self.events})
         self.lib = rec.get("lib", "none")
         self.libname = rec.get("libname", "lb")
-        self.sibname = self.libname      # the sibling keeps its name when lib is renamed (set by the caller)
+        # the sibling / second starred module keeps its name when lib is renamed (set by the caller)
+        self.sibname = self.libname + "2" if self.lib == "stars" else self.libname
         self.children = {s: [] for s in range(1, self.n + 1)}
         for i in range(2, self.n + 1):
             self.children[self.scopes[i]["parent"]].append(i)
@@ -219,7 +230,7 @@ class Program:
         return {"function": "f%d", "class": "C%d", "comp": "<comp%d>", "lambda": "<lambda%d>"}[sc["kind"]] % s
 
 
-DECOYS = ("cmtdecoy", "strdecoy")
+DECOYS = ("cmtdecoy", "strdecoy", "cmtdedent")
 PARAM_OPS = ("posonly", "param", "vararg", "kwonly", "kwarg")
 # binders that store a line-number value into the name at run time
 VALUE_BINDERS = ("bind", "for", "with", "with2", "walrus", "matchcap", "param", "posonly", "kwonly", "kwcall", "except")
@@ -307,8 +318,8 @@ class Rendered:
         return sorted((p, self._off(self.lines, line, col)) for p, line, col in self.sib_mod_tokens)
 
     def module_places(self):
-        return sorted((p, self._off(self.lines if p == self.main else self.lib_lines, line, col))
-                      for p, line, col in self.mod_tokens)
+        files = self.files
+        return sorted((p, self._off(files[p].split("\n"), line, col)) for p, line, col in self.mod_tokens)
 
 
 class _Renderer:
@@ -438,6 +449,13 @@ class _Renderer:
             self.wrapped(indent, ["del ", self.ident(e)])
         if len(self.r.lines) == n0 or all(l.lstrip().startswith("#") for l in self.r.lines[n0:]):
             self.emit(indent, ["pass"])
+        for e in self.evs(s, "cmtdedent"):
+            # the block ends with a compound statement that holds a comment-only line indented
+            # less than the block itself (but more than 0)
+            self.emit(indent, ["if 1:"])
+            self.emit(indent + 4, ["pass"])
+            self.emit(max(indent - 2, 1), ["# see ", ("id", ev_key(e), e["n"]), " below"])
+            self.emit(indent + 4, ["pass"])
 
     # -- multi-module part
     def modtok(self):
@@ -452,6 +470,10 @@ class _Renderer:
     def lib_imports(self, s, indent):
         p = self.p
         lib = p.libname
+        if p.lib == "stars":
+            return
+        if p.lib == "starmod":
+            return      # lib is reached through `from st import *` at the top of the module
         frm = {"module": ["from ", self.modtok(), lib], "package": ["from pk.", self.modtok(), lib],
                "relative": ["from .", self.modtok(), lib], "external": ["from ", self.modtok(), lib],
                "shadowed": ["from ", self.modtok(), lib]}.get(p.lib)
@@ -480,13 +502,14 @@ class _Renderer:
         if p.lib == "none":
             return
         r.lib_path = {"module": "%s.py", "package": "pk/%s.py", "relative": "pk/%s.py",
-                      "external": "%s.py", "shadowed": "%s.py"}[p.lib] % p.libname
+                      "external": "%s.py", "shadowed": "%s.py", "stars": "%s.py", "starmod": "%s.py"}[p.lib] % p.libname
         r.external = p.lib == "external"
         if p.lib in ("package", "relative", "shadowed"):
             r.extra_files["pk/__init__.py"] = ""
-        if p.lib == "shadowed":
-            # the importer's own folder holds another module called lb
-            r.sib_path = "pk/%s.py" % p.sibname
+        if p.lib in ("shadowed", "stars"):
+            # shadowed: the importer's own folder holds another module called lb;
+            # stars: the second module whose names are star-imported
+            r.sib_path = ("pk/%s.py" if p.lib == "shadowed" else "%s.py") % p.sibname
             for e in self.evs(0, "sibdef"):
                 ln = len(r.sib_lines) + 1
                 r.sib_tok[ev_key(e)] = (ln, 0)
@@ -624,7 +647,28 @@ class _Renderer:
                 self.r.call_line[s] = len(self.r.lines)
                 return
         cn = ("id", (sc["parent"], "call", sc["name"], s), name) if sc["name"] != "-" else name
-        self.r.call_line[s] = self.emit(indent, [cn, "("] + args + [")"])
+        recall = {e["n"]: e for e in self.evs(s, "kwrecall")}
+        resattr = self.evs(s, "resattr")
+        if not (recall or resattr):
+            self.r.call_line[s] = self.emit(indent, [cn, "("] + args + [")"])
+            return
+        # r = f(n=..); r.n; f(n=..): an attribute with the parameter's spelling on the call's
+        # result between two keyword calls
+        first = self.r.call_line[s] = self.emit(indent, ["_r%d = " % s, cn, "("] + args + [")"])
+        for e in resattr:
+            self.use(indent, e, ["_r%d." % s, self.ident(e)], exc="(NameError, AttributeError)")
+        if recall:
+            kw = {e["n"] for e in self.evs(s, "kwcall")}
+            normal = self.evs(s, "param")
+            parts = [str(first)] * len(self.evs(s, "posonly"))
+            parts += [str(first) for e in normal if e["n"] not in kw]
+            items = [[x] for x in parts]
+            for e in [x for x in normal if x["n"] in kw] + [x for x in self.evs(s, "kwonly") if x["n"] in kw]:
+                items.append([("id", ev_key(recall[e["n"]]), e["n"]), "=", str(first)])
+            out = []
+            for i, it in enumerate(items):
+                out += ([", "] if i else []) + it
+            self.emit(indent, [cn, "("] + out + [")"])
 
     def klass(self, s, indent):
         sc = self.p.scopes[s]
@@ -698,6 +742,16 @@ class _Renderer:
 
     def run(self):
         self.r.head[1] = 1
+        if self.p.lib == "starmod":
+            # st.py imports lib; its star import re-exports the module object
+            self.emit(0, ["from st import *"])
+            self.r.extra_files["st.py"] = "import %s\n" % self.p.libname
+            self.r.mod_tokens.append(("st.py", 1, 7))
+        if self.p.lib == "stars":
+            # the later star import wins for a name both modules define
+            self.emit(0, ["from ", self.modtok(), self.p.libname, " import *"])
+            self.emit(0, ["from ", ("mark", lambda l, c: self.r.sib_mod_tokens.append(("mod.py", l, c))),
+                          self.p.sibname, " import *"])
         if any(e["op"] == "helperattr" for e in self.p.events):
             # the pass-through helper lives in a module of its own (no extra scope here)
             self.emit(0, ["from hlp import _h"])
@@ -947,7 +1001,7 @@ def cpython_check(prog, r, run=True):
             local = (s, n) in prog.local
             res = prog.resolve[(s, n)]
             if sym is None:
-                if local:
+                if local and not (s == 1 and prog.lib == "stars"):
                     raise SpecMismatch("spec: %s local in scope %d, symtable has no symbol" % (n, s))
                 continue
             # The module table carries DEF_GLOBAL for every `global n` anywhere and for
@@ -955,7 +1009,10 @@ def cpython_check(prog, r, run=True):
             # module's symbol dict); with that flag alone symtable cannot tell whether
             # the module block binds n, so the flag is not compared there (execution
             # provenance below still is).
-            if not (s == 1 and sym.is_declared_global() and not sym.is_local()):
+            # (a star import binds names the symbol table cannot know: the module table of the
+            # "stars" layout is validated by execution only)
+            if not (s == 1 and sym.is_declared_global() and not sym.is_local()) and \
+                    not (s == 1 and prog.lib == "stars"):
                 if sym.is_local() != local:
                     raise SpecMismatch("Local(%d,%s): spec %s, symtable is_local %s" % (
                         s, n, local, sym.is_local()))
@@ -1003,7 +1060,7 @@ def cpython_check(prog, r, run=True):
             if lib_names.get(pos) != key[2]:
                 raise SpecMismatch("token of %s not at %s in the second module" % (key, pos))
         for (path, line, col) in r.mod_tokens:
-            if path != r.main or names_at.get((line, col)) != prog.libname:
+            if path == r.main and names_at.get((line, col)) != prog.libname:
                 raise SpecMismatch("module token not at %s" % ((path, line, col),))
         if r.sib_path is not None:
             sib_src = r.files[r.sib_path]
